@@ -402,6 +402,19 @@ def run_pool_case(case, rec, which):
             rec.check(a_ == b_ == c_, "parallel-equals-serial",
                       f"refine_droplets: candidates given as a generator ({len(gen_par.result)} droplets with "
                       f"num_processes={case['num_processes']}, {len(gen_ser.result)} serially) vs list ({len(lst.result)}); {label}")
+    if which == "refine" and case["sched_seed"] % 3 == 0:
+        # the simulation goes on: the same field object now holds another image (changed in place), and the analysis is
+        # repeated serially and with worker processes
+        _sched["log"] = None
+        shift = [max(1, n_ // 3) for n_ in field.data.shape]
+        field.data[...] = np.roll(field.data, shift, axis=tuple(range(field.data.ndim)))[::-1]
+        ser2 = common.monitored(rec, "refine:serial (same field object, new image)", call, 1)
+        par2 = common.monitored(rec, "refine:parallel (same field object, new image)", call, case["num_processes"])
+        if rec.check(ser2.ok and par2.ok, "no-exception", f"second analysis of the same field object raised {ser2.exc!r} / {par2.exc!r}; {label}"):
+            rec.check(snap(par2.result) == snap(ser2.result), "parallel-equals-serial",
+                      f"after the field object got a new image in place, the result with num_processes={case['num_processes']} "
+                      f"({len(par2.result)} droplets) differs from the serial result ({len(ser2.result)} droplets); {label}")
+            rec.count("fields_changed_in_place_between_parallel_analyses")
     rec.evaluated(nontrivial=bool(perm) and not identity)
     rec.count(f"{which}:nproc={case['num_processes']}|{case['schedule']}")
     if perm and not identity:
